@@ -303,6 +303,23 @@ theorem c12RtZ_of_rtR (i : UInt16) (cs : List (Bool × C12.Call)) (o : List (Lis
   have h2 : c12Zero (c12Pair o) = o := by simp [c12Zero, c12Pair, Function.comp_def]
   simp [c12RtZ, h1, h2, h]
 
+/-- the per-frame predicate `C12.rtLocal` with the same reading of `head` as `c12RtR` -/
+def c12LocalR (cs : List (Bool × C12.Call)) (o : List (List C12.FragObs)) : Bool :=
+  C12.rtLocal cs o || C12.rtLocal cs (o.map (·.map (fun fr => { fr with head := fr.md.B })))
+
+/-- what `c12.rt` evaluates: the whole-history predicate when every call is proper, and the per-frame
+    predicate on both receivers' observations in every history -/
+def c12RtL (i : UInt16) (cs : List (Bool × C12.Call)) (o : List (List (C12.FragObs × Res Bytes))) : Bool :=
+  (!cs.all (fun fc => C12.proper fc.1 fc.2) || c12RtZ i cs o) &&
+  c12LocalR cs (c12Plain o) && c12LocalR cs (c12Zero o)
+
+theorem c12RtL_of (i : UInt16) (cs : List (Bool × C12.Call)) (o : List (List C12.FragObs)) :
+    C12.rtFlip i cs o = true → C12.rtLocal cs o = true → c12RtL i cs (c12Pair o) = true := by
+  intro h hl
+  have h1 : c12Plain (c12Pair o) = o := by simp [c12Plain, c12Pair, Function.comp_def]
+  have h2 : c12Zero (c12Pair o) = o := by simp [c12Zero, c12Pair, Function.comp_def]
+  simp [c12RtL, h1, h2, c12LocalR, hl, c12RtZ_of_rtR i cs o (c12RtR_of_rt i cs o h)]
+
 /-- `init <n> (flex mtu frame opt(hdrdesc))*`: `FlexibleMode` is an exported field, the harness sets
     it before every call (in most histories to one value throughout, in a share of them to a value
     that changes between frames); model and predicate take it per call (`c12_rt_flip`). -/
@@ -311,10 +328,12 @@ def c12Rt : Handler :=
     (do let i ← Rd.u16; let cs ← Rd.list rdVP9FCall; pure (i, cs))
     (Rd.list (Rd.list (do let fr ← rdVP9Frag; let rz ← Rd.resC Rd.bytes; pure (fr, rz))))
     (fun (i, cs) => c12Pair (C12.obsRtFlip i cs))
-    (fun (i, cs) o => c12RtZ i cs o)
-    -- every call of the history is inside the property's domain ("sufficient MTU", a frame with a
-    -- well-formed header): what a call outside it does to the running picture id is not claimed
-    (fun (_, cs) => cs.all (fun fc => C12.proper fc.1 fc.2))
+    (fun (i, cs) o => c12RtL i cs o)
+    -- the whole-history predicate (with the running picture id) binds when every call of the history
+    -- is inside the property's domain ("sufficient MTU", a frame with a well-formed header): what a
+    -- call outside it does to the running picture id is not claimed.  The per-frame clauses
+    -- (`C12.rtLocal`, theorem `c12_rt_local`) bind for every proper call of every history.
+    (fun (_, cs) => cs.any (fun fc => C12.proper fc.1 fc.2))
 
 def c08Vp9 : Handler :=
   mkHandler (do let f ← Rd.bool; let i ← Rd.u16; let cs ← rdCalls; pure (f, i, cs)) rdPayObsList
